@@ -299,3 +299,5 @@ Definition go_type (w : wt) : string :=
   end.
 
 Definition prog_width (w : wt) : list ws := prog (go_type w ++ ".width").
+Definition prog_fill (w : wt) : list ws := prog (go_type w ++ ".fill").
+Definition prog_fillprop (w : wt) : list ws := prog (go_type w ++ ".fillProp").
